@@ -226,6 +226,17 @@ def run(ctx):
             documents.append("import qmluic.QtWidgets\n" + tmpl % ch + "\n")
             nraw += 1
     ctx.dist("doc-raw-non-xml-characters", nraw)
+    # bodies that run no statement at all before they return: a variable declared with a type and no initialiser is the value (or is just there), nested blocks,
+    # empty bodies, a return of a declared-only variable in every kind of place
+    nun = 0
+    for tmpl in ('QLabel { text: { let s: QString; s } }', 'QSpinBox { value: { let n: int; return n } }', 'QLabel { text: { let s: QString; { s } } }', 'QLabel { buddy: { let w: QWidget; w } }',
+                 'QCheckBox { checked: { let b: bool; return b } }', 'QDoubleSpinBox { value: { let d: double; d } }', 'QLabel { text: { } }', 'QLabel { text: { { } } }',
+                 'QComboBox { model: { let l: QStringList; l } }', 'QLabel { font.family: { let s: QString; s } }', 'QLabel { text: { let s: QString; let t: QString; t } }',
+                 'QPushButton { onClicked: { let s: QString; s } }', 'QLabel { text: { let s: QString; return s; return "x" } }', 'QLabel { alignment: { let a: Qt.Alignment; a } }',
+                 'QLabel { text: { let u: uint; return "x" } }', 'QLabel { QLayout.row: { let n: int; n } }'):
+        documents.append("import qmluic.QtWidgets\nQWidget { QVBoxLayout { " + tmpl + " } }\n")
+        nun += 1
+    ctx.dist("doc-statement-free-bodies", nun)
     if ctx.replay and isinstance(ctx.replay.get("case"), str):
         documents = [ctx.replay["case"]]
     ctx.dist("doc-corpus", len(base)); ctx.dist("doc-mutant", len(base) * nmut); ctx.dist("doc-soup", 400 if ctx.tier == "thorough" else 60)
